@@ -194,6 +194,52 @@ fn c26replay() { println!("needs --features wide"); }
 #[cfg(not(feature = "wide"))]
 fn c19() { println!("C19 needs --features wide"); }
 
+fn c02growth() {
+    // commit (persists a sketch track), then un-committed puts large enough to grow the embedded WAL;
+    // the process dies before the next commit.
+    let dir = tempfile::tempdir().unwrap();
+    let p = dir.path().join("a.mv2");
+    let mut m = Memvid::create(&p).unwrap();
+    m.put_bytes(b"alpha beta gamma delta: a first small committed document").unwrap();
+    m.commit().unwrap();
+    let st = m.stats().unwrap();
+    println!("C02growth wal bytes before {:?}", st.wal_bytes);
+    let mut x: u64 = 0x9e3779b97f4a7c15;
+    for i in 0..6 {
+        let blob: Vec<u8> = (0..40_000).map(|_| { x ^= x << 13; x ^= x >> 7; x ^= x << 17; (x & 0xff) as u8 }).collect();
+        let mut o = PutOptions::default(); o.uri = Some(format!("mv2://blob/{}", i));
+        m.put_bytes_with_options(&blob, o).unwrap();
+    }
+    println!("C02growth wal bytes after {:?}", m.stats().unwrap().wal_bytes);
+    let crash = dir.path().join("crash.mv2");
+    std::fs::copy(&p, &crash).unwrap();
+    std::mem::forget(m);
+    let r = Memvid::open(&crash);
+    println!("C02growth open of the crash image: ok={} {:?}", r.is_ok(), r.as_ref().err().map(|e| e.to_string()));
+    if let Ok(m2) = r { println!("C02growth frames visible: {}", m2.frame_count()); }
+}
+
+fn c04() {
+    // a crash-left file with one pending insert; recovery on open persists the header twice (inside rebuild_indexes
+    // with the new footer but the old wal_sequence, then with the advanced wal_sequence). A process crash between
+    // the two writes = the recovered file with header bytes 32..48 (wal_checkpoint_pos, wal_sequence) still old.
+    let dir = tempfile::tempdir().unwrap();
+    let p = dir.path().join("a.mv2");
+    let mut m = Memvid::create(&p).unwrap();
+    m.put_bytes(b"committed document A").unwrap(); m.commit().unwrap();
+    m.put_bytes(b"pending document B").unwrap();
+    let crash = dir.path().join("crash.mv2");
+    std::fs::copy(&p, &crash).unwrap();
+    std::mem::forget(m);
+    let before = std::fs::read(&crash).unwrap();
+    { let m1 = Memvid::open(&crash).unwrap(); println!("C04 uninterrupted recovery: frames = {}", m1.frame_count()); }
+    { let m1 = Memvid::open(&crash).unwrap(); println!("C04 reopen of the recovered file: frames = {}", m1.frame_count()); }
+    let mut img = std::fs::read(&crash).unwrap();
+    img[32..48].copy_from_slice(&before[32..48]);
+    std::fs::write(&crash, &img).unwrap();
+    match Memvid::open(&crash) { Ok(m2) => println!("C04 open after a crash between the two header writes: frames = {}", m2.frame_count()), Err(e) => println!("C04 open after crash failed: {}", e) }
+}
+
 fn c32() {
     let dir = tempfile::tempdir().unwrap();
     let p = dir.path().join("a.mv2");
@@ -411,5 +457,5 @@ fn c08() {
 
 fn main() {
     let which = std::env::args().nth(1).unwrap_or_default();
-    match which.as_str() { "c05"=>c05(), "c26"=>c26(), "c20"=>c20(), "c20blob"=>c20blob(), "c07"=>c07(), "c39"=>c39(), "c19"=>c19(), "c26replay"=>c26replay(), "c18replay"=>c18replay(), "c02replay"=>c02replay(), "c32"=>c32(), "c11"=>c11(), "c17"=>c17(), "c08"=>c08(), "c29"=>c29(), "c14"=>c14(), "c09"=>c09(), "c18"=>c18(), "c23"=>c23(), "c16"=>c16(), "c40"=>c40(), "c24"=>c24(), "c15"=>c15(), "c22"=>c22(), _=>{ c05(); c26(); c20(); c11(); c17(); } }
+    match which.as_str() { "c05"=>c05(), "c26"=>c26(), "c20"=>c20(), "c20blob"=>c20blob(), "c07"=>c07(), "c39"=>c39(), "c19"=>c19(), "c02growth"=>c02growth(), "c04"=>c04(), "c26replay"=>c26replay(), "c18replay"=>c18replay(), "c02replay"=>c02replay(), "c32"=>c32(), "c11"=>c11(), "c17"=>c17(), "c08"=>c08(), "c29"=>c29(), "c14"=>c14(), "c09"=>c09(), "c18"=>c18(), "c23"=>c23(), "c16"=>c16(), "c40"=>c40(), "c24"=>c24(), "c15"=>c15(), "c22"=>c22(), _=>{ c05(); c26(); c20(); c11(); c17(); } }
 }
